@@ -7,7 +7,9 @@
 // =============================================================================================
 // ---- the unparsing theorem for the binary / prefix-operator fragment --------------------------------------------------------------
 // abstract operator table of ONE engine: precedence of a binary operator, of the prefix operator NOT; which decisions the printer takes
-pub enum UT<Op> { Atom(int), Bin(Op, Box<UT<Op>>, Box<UT<Op>>), Not(Box<UT<Op>>) }
+pub enum UT<Op> { Atom(int), Bin(Op, Box<UT<Op>>, Box<UT<Op>>), Not(Box<UT<Op>>),
+    // x <op> lo <kw> hi  with a MANDATORY keyword: x BETWEEN lo AND hi (the keyword is itself an ordinary, looser binary operator)
+    Tern(Op, Box<UT<Op>>, Box<UT<Op>>, Box<UT<Op>>) }
 pub enum UTok<Op> { A(int), O(Op), N, L, R }
 // an engine's operator table and a printer's parenthesis decisions (any: the theorem quantifies over them)
 #[verifier::reject_recursive_types(Op)]
@@ -17,21 +19,39 @@ pub struct UpTable<Op> {
     pub dl: spec_fn(UT<Op>, Op) -> bool,          // the printer writes the LEFT operand of op without parentheses
     pub dr: spec_fn(UT<Op>, Op) -> bool,          // .. the RIGHT operand
     pub dn: spec_fn(UT<Op>) -> bool,              // .. the operand of NOT
+    pub kw: spec_fn(Op) -> Option<Op>,            // Some(k): op is a ternary operator `x op lo k hi` (BETWEEN .. AND); its keyword k is mandatory
+    pub da: spec_fn(UT<Op>, Op) -> bool,          // the printer writes the FIRST bound of a ternary operator without parentheses
+    pub db: spec_fn(UT<Op>, Op) -> bool,          // .. the SECOND bound
 }
 
 // lowest precedence an operator FOLLOWING the printed tree may have without being captured by it / the level at which the tree can stand bare
-pub open spec fn up_top<Op>(tb: UpTable<Op>, t: UT<Op>) -> Option<int> { match t { UT::Atom(_) => None, UT::Bin(op, _, _) => Some((tb.prec)(op)), UT::Not(_) => Some(tb.prec_not) } }
+pub open spec fn up_top<Op>(tb: UpTable<Op>, t: UT<Op>) -> Option<int> { match t { UT::Atom(_) => None, UT::Bin(op, _, _) => Some((tb.prec)(op)), UT::Not(_) => Some(tb.prec_not), UT::Tern(op, _, _, _) => Some((tb.prec)(op)) } }
 // what the contracts of binary_expr / the NOT arm guarantee (C05, proved in this unit for the three engines): an operand is written bare
 // only if it is atomic, binds tighter, or - on the left - is the same left-associative operator
-pub open spec fn up_safe_l<Op>(tb: UpTable<Op>, c: UT<Op>, op: Op) -> bool { match c { UT::Atom(_) => true, UT::Bin(cop, _, _) => (tb.prec)(cop) > (tb.prec)(op) || (cop == op), UT::Not(_) => false } }
-pub open spec fn up_safe_r<Op>(tb: UpTable<Op>, c: UT<Op>, op: Op) -> bool { match c { UT::Atom(_) => true, UT::Bin(cop, _, _) => (tb.prec)(cop) > (tb.prec)(op), UT::Not(_) => false } }
-pub open spec fn up_safe_n<Op>(tb: UpTable<Op>, c: UT<Op>) -> bool { match c { UT::Atom(_) => true, UT::Bin(cop, _, _) => (tb.prec)(cop) > tb.prec_not, UT::Not(_) => false } }
+pub open spec fn up_safe_l<Op>(tb: UpTable<Op>, c: UT<Op>, op: Op) -> bool { match c { UT::Atom(_) => true, UT::Bin(cop, _, _) => (tb.prec)(cop) > (tb.prec)(op) || (cop == op), UT::Not(_) => false, UT::Tern(cop, _, _, _) => (tb.prec)(cop) > (tb.prec)(op) } }
+pub open spec fn up_safe_r<Op>(tb: UpTable<Op>, c: UT<Op>, op: Op) -> bool { match c { UT::Atom(_) => true, UT::Bin(cop, _, _) => (tb.prec)(cop) > (tb.prec)(op), UT::Not(_) => false, UT::Tern(cop, _, _, _) => (tb.prec)(cop) > (tb.prec)(op) } }
+pub open spec fn up_safe_n<Op>(tb: UpTable<Op>, c: UT<Op>) -> bool { match c { UT::Atom(_) => true, UT::Bin(cop, _, _) => (tb.prec)(cop) > tb.prec_not, UT::Not(_) => false, UT::Tern(cop, _, _, _) => (tb.prec)(cop) > tb.prec_not } }
 pub open spec fn up_printer_ok<Op>(tb: UpTable<Op>) -> bool {
     &&& tb.prec_not > UP_MIN
     &&& forall|op: Op| #[trigger] (tb.prec)(op) > UP_MIN
     &&& forall|c: UT<Op>, op: Op| #[trigger] (tb.dl)(c, op) ==> up_safe_l(tb, c, op)
     &&& forall|c: UT<Op>, op: Op| #[trigger] (tb.dr)(c, op) ==> up_safe_r(tb, c, op)
     &&& forall|c: UT<Op>| #[trigger] (tb.dn)(c) ==> up_safe_n(tb, c)
+    // the bounds of a ternary operator are ordinary right-hand operands of it; its keyword binds no tighter than the operator itself
+    &&& forall|c: UT<Op>, op: Op| #[trigger] (tb.da)(c, op) ==> up_safe_r(tb, c, op)
+    &&& forall|c: UT<Op>, op: Op| #[trigger] (tb.db)(c, op) ==> up_safe_r(tb, c, op)
+    &&& forall|op: Op| (#[trigger] (tb.kw)(op)) is Some ==> (tb.prec)((tb.kw)(op)->Some_0) <= (tb.prec)(op)
+}
+// a ternary operator is used in ternary nodes only, a binary one in binary nodes only
+pub open spec fn up_wf<Op>(tb: UpTable<Op>, t: UT<Op>) -> bool
+    decreases t
+{
+    match t {
+        UT::Atom(_) => true,
+        UT::Bin(op, l, r) => (tb.kw)(op) is None && up_wf(tb, *l) && up_wf(tb, *r),
+        UT::Not(x) => up_wf(tb, *x),
+        UT::Tern(op, x, a, b) => (tb.kw)(op) is Some && up_wf(tb, *x) && up_wf(tb, *a) && up_wf(tb, *b),
+    }
 }
 pub open spec fn up_wrap<Op>(b: bool, s: Seq<UTok<Op>>) -> Seq<UTok<Op>> { if b { s } else { seq![UTok::L] + s + seq![UTok::R] } }
 // the printer: [(] left [)] op [(] right [)]  /  NOT [(] x [)]
@@ -42,6 +62,8 @@ pub open spec fn up_print<Op>(tb: UpTable<Op>, t: UT<Op>) -> Seq<UTok<Op>>
         UT::Atom(a) => seq![UTok::A(a)],
         UT::Bin(op, l, r) => up_wrap((tb.dl)(*l, op), up_print(tb, *l)) + seq![UTok::O(op)] + up_wrap((tb.dr)(*r, op), up_print(tb, *r)),
         UT::Not(x) => seq![UTok::N] + up_wrap((tb.dn)(*x), up_print(tb, *x)),
+        UT::Tern(op, x, a, b) => up_wrap((tb.dl)(*x, op), up_print(tb, *x)) + seq![UTok::O(op)] + up_wrap((tb.da)(*a, op), up_print(tb, *a))
+            + seq![UTok::O((tb.kw)(op)->Some_0)] + up_wrap((tb.db)(*b, op), up_print(tb, *b)),
     }
 }
 
@@ -75,7 +97,16 @@ pub open spec fn up_climb<Op>(tb: UpTable<Op>, s: Seq<UTok<Op>>, lhs: UT<Op>, j:
         let op = s[j]->O_0;
         match up_parse_e(tb, s, j + 1, (tb.prec)(op) + 1) {
             None => None,
-            Some((rhs, k)) => if k > j && k <= s.len() { up_climb(tb, s, UT::Bin(op, Box::new(lhs), Box::new(rhs)), k, m) } else { None },
+            Some((rhs, k)) => if !(k > j && k <= s.len()) { None }
+                else if (tb.kw)(op) is Some {
+                    // ternary operator: its keyword is mandatory, then the second bound (parsed like the first)
+                    if k < s.len() && s[k] is O && s[k]->O_0 == (tb.kw)(op)->Some_0 {
+                        match up_parse_e(tb, s, k + 1, (tb.prec)(op) + 1) {
+                            None => None,
+                            Some((hi, k2)) => if k2 > k && k2 <= s.len() { up_climb(tb, s, UT::Tern(op, Box::new(lhs), Box::new(rhs), Box::new(hi)), k2, m) } else { None },
+                        }
+                    } else { None }
+                } else { up_climb(tb, s, UT::Bin(op, Box::new(lhs), Box::new(rhs)), k, m) },
         }
     } else { Some((lhs, j)) }
 }
@@ -90,24 +121,36 @@ pub proof fn lemma_up_split<Op>(s: Seq<UTok<Op>>, i: int, a: Seq<UTok<Op>>, b: S
     assert forall|k: int| 0 <= k < b.len() implies s[i + a.len() + k] == #[trigger] b[k] by { assert((a + b)[a.len() + k] == b[k]); }
 }
 // the tree can stand WITHOUT parentheses where operators of precedence >= m are being collected
-pub open spec fn up_bare_at<Op>(tb: UpTable<Op>, t: UT<Op>, m: int) -> bool { match t { UT::Atom(_) => true, UT::Bin(op, _, _) => (tb.prec)(op) >= m, UT::Not(_) => true } }
+pub open spec fn up_bare_at<Op>(tb: UpTable<Op>, t: UT<Op>, m: int) -> bool { match t { UT::Atom(_) => true, UT::Bin(op, _, _) => (tb.prec)(op) >= m, UT::Not(_) => true, UT::Tern(op, _, _, _) => (tb.prec)(op) >= m } }
 // the token after the tree does not reach into it: end of input, `)`, or an operator that binds no tighter than the tree's top operator
 pub open spec fn up_follow_ok<Op>(tb: UpTable<Op>, t: UT<Op>, s: Seq<UTok<Op>>, j: int) -> bool {
-    j >= s.len() || s[j] is R || (s[j] is O && match t { UT::Atom(_) => true, UT::Bin(op, _, _) => (tb.prec)(s[j]->O_0) <= (tb.prec)(op), UT::Not(_) => (tb.prec)(s[j]->O_0) < tb.prec_not })
+    j >= s.len() || s[j] is R || (s[j] is O && match t { UT::Atom(_) => true, UT::Bin(op, _, _) => (tb.prec)(s[j]->O_0) <= (tb.prec)(op), UT::Not(_) => (tb.prec)(s[j]->O_0) < tb.prec_not, UT::Tern(op, _, _, _) => (tb.prec)(s[j]->O_0) <= (tb.prec)(op) })
 }
 pub proof fn lemma_up_len<Op>(tb: UpTable<Op>, t: UT<Op>) ensures up_print(tb, t).len() >= 1 decreases t
-{ match t { UT::Atom(_) => {}, UT::Bin(op, l, r) => { lemma_up_len(tb, *l); lemma_up_len(tb, *r); }, UT::Not(x) => { lemma_up_len(tb, *x); } } }
+{ match t { UT::Atom(_) => {}, UT::Bin(op, l, r) => { lemma_up_len(tb, *l); lemma_up_len(tb, *r); }, UT::Not(x) => { lemma_up_len(tb, *x); }, UT::Tern(op, x, a, b) => { lemma_up_len(tb, *x); lemma_up_len(tb, *a); lemma_up_len(tb, *b); } } }
 
 // MAIN LEMMA: parsing, at level m, from the first token of a tree that stands bare there yields that tree as left operand, and the parser
-// goes on collecting operators of precedence >= m AFTER the tree's last token
+// goes on collecting operators of precedence >= m AFTER the tree's last token (one lemma per node kind: each stays a small query)
 pub proof fn lemma_up_main<Op>(tb: UpTable<Op>, t: UT<Op>, s: Seq<UTok<Op>>, i: int, m: int)
-    requires up_printer_ok(tb), up_matches(s, i, up_print(tb, t)), up_bare_at(tb, t, m), up_follow_ok(tb, t, s, i + up_print(tb, t).len()),
+    requires up_printer_ok(tb), up_wf(tb, t), up_matches(s, i, up_print(tb, t)), up_bare_at(tb, t, m), up_follow_ok(tb, t, s, i + up_print(tb, t).len()),
+    ensures up_parse_e(tb, s, i, m) == up_climb(tb, s, t, i + up_print(tb, t).len(), m)
+    decreases t, 1nat
+{
+    lemma_up_len(tb, t);
+    match t {
+        UT::Atom(a) => { assert(s[i] == up_print(tb, t)[0]); }
+        UT::Bin(_, _, _) => { lemma_up_case_bin(tb, t, s, i, m); }
+        UT::Tern(_, _, _, _) => { lemma_up_case_tern(tb, t, s, i, m); }
+        UT::Not(_) => { lemma_up_case_not(tb, t, s, i, m); }
+    }
+}
+pub proof fn lemma_up_case_bin<Op>(tb: UpTable<Op>, t: UT<Op>, s: Seq<UTok<Op>>, i: int, m: int)
+    requires t is Bin, up_printer_ok(tb), up_wf(tb, t), up_matches(s, i, up_print(tb, t)), up_bare_at(tb, t, m), up_follow_ok(tb, t, s, i + up_print(tb, t).len()),
     ensures up_parse_e(tb, s, i, m) == up_climb(tb, s, t, i + up_print(tb, t).len(), m)
     decreases t, 0nat
 {
     lemma_up_len(tb, t);
     match t {
-        UT::Atom(a) => { assert(s[i] == up_print(tb, t)[0]); }
         UT::Bin(op, l, r) => {
             let wl = up_wrap((tb.dl)(*l, op), up_print(tb, *l));
             let wr = up_wrap((tb.dr)(*r, op), up_print(tb, *r));
@@ -129,6 +172,55 @@ pub proof fn lemma_up_main<Op>(tb: UpTable<Op>, t: UT<Op>, s: Seq<UTok<Op>>, i: 
             assert(up_climb(tb, s, *r, k, (tb.prec)(op) + 1) == Some((*r, k)));
             lemma_up_len(tb, *r);
         }
+        _ => {}
+    }
+}
+pub proof fn lemma_up_case_tern<Op>(tb: UpTable<Op>, t: UT<Op>, s: Seq<UTok<Op>>, i: int, m: int)
+    requires t is Tern, up_printer_ok(tb), up_wf(tb, t), up_matches(s, i, up_print(tb, t)), up_bare_at(tb, t, m), up_follow_ok(tb, t, s, i + up_print(tb, t).len()),
+    ensures up_parse_e(tb, s, i, m) == up_climb(tb, s, t, i + up_print(tb, t).len(), m)
+    decreases t, 0nat
+{
+    lemma_up_len(tb, t);
+    match t {
+        UT::Tern(op, x, a, b) => {
+            let kk = (tb.kw)(op)->Some_0;
+            let wl = up_wrap((tb.dl)(*x, op), up_print(tb, *x));
+            let wa = up_wrap((tb.da)(*a, op), up_print(tb, *a));
+            let wb = up_wrap((tb.db)(*b, op), up_print(tb, *b));
+            assert(up_print(tb, t) == wl + seq![UTok::O(op)] + wa + seq![UTok::O(kk)] + wb);
+            lemma_up_split(s, i, wl + seq![UTok::O(op)] + wa + seq![UTok::O(kk)], wb);
+            lemma_up_split(s, i, wl + seq![UTok::O(op)] + wa, seq![UTok::O(kk)]);
+            lemma_up_split(s, i, wl + seq![UTok::O(op)], wa);
+            lemma_up_split(s, i, wl, seq![UTok::O(op)]);
+            let j = i + wl.len();
+            assert(s[j] == seq![UTok::O(op)][0]);
+            lemma_up_operand(tb, *x, (tb.dl)(*x, op), s, i, m, true, op);
+            assert(up_parse_e(tb, s, i, m) == up_climb(tb, s, *x, j, m));
+            assert((wl + seq![UTok::O(op)]).len() == wl.len() + 1);
+            let k = j + 1 + wa.len();
+            assert((wl + seq![UTok::O(op)] + wa).len() == k - i);
+            assert(s[k] == seq![UTok::O(kk)][0]);
+            // first bound: at level prec(op) + 1, followed by the keyword (which binds no tighter than op)
+            lemma_up_operand(tb, *a, (tb.da)(*a, op), s, j + 1, (tb.prec)(op) + 1, false, op);
+            assert(up_climb(tb, s, *a, k, (tb.prec)(op) + 1) == Some((*a, k)));
+            // second bound: followed by whatever follows the whole tree
+            assert((wl + seq![UTok::O(op)] + wa + seq![UTok::O(kk)]).len() == k + 1 - i);
+            lemma_up_operand(tb, *b, (tb.db)(*b, op), s, k + 1, (tb.prec)(op) + 1, false, op);
+            let k2 = k + 1 + wb.len();
+            assert(k2 == i + up_print(tb, t).len());
+            assert(up_climb(tb, s, *b, k2, (tb.prec)(op) + 1) == Some((*b, k2)));
+            lemma_up_len(tb, *a); lemma_up_len(tb, *b);
+        }
+        _ => {}
+    }
+}
+pub proof fn lemma_up_case_not<Op>(tb: UpTable<Op>, t: UT<Op>, s: Seq<UTok<Op>>, i: int, m: int)
+    requires t is Not, up_printer_ok(tb), up_wf(tb, t), up_matches(s, i, up_print(tb, t)), up_bare_at(tb, t, m), up_follow_ok(tb, t, s, i + up_print(tb, t).len()),
+    ensures up_parse_e(tb, s, i, m) == up_climb(tb, s, t, i + up_print(tb, t).len(), m)
+    decreases t, 0nat
+{
+    lemma_up_len(tb, t);
+    match t {
         UT::Not(x) => {
             let wx = up_wrap((tb.dn)(*x), up_print(tb, *x));
             assert(up_print(tb, t) == seq![UTok::N] + wx);
@@ -140,17 +232,18 @@ pub proof fn lemma_up_main<Op>(tb: UpTable<Op>, t: UT<Op>, s: Seq<UTok<Op>>, i: 
             assert(up_climb(tb, s, *x, k, tb.prec_not) == Some((*x, k)));
             lemma_up_len(tb, *x);
         }
+        _ => {}
     }
 }
 // an operand c of `op`, written bare or in parentheses at position p, parsed at level lvl (left operand: the enclosing level m, followed by
 // `op`; right operand: prec(op) + 1, followed by the enclosing tree's follower)
 pub proof fn lemma_up_operand<Op>(tb: UpTable<Op>, c: UT<Op>, bare: bool, s: Seq<UTok<Op>>, p: int, lvl: int, left: bool, op: Op)
-    requires up_printer_ok(tb), up_matches(s, p, up_wrap(bare, up_print(tb, c))),
+    requires up_printer_ok(tb), up_wf(tb, c), up_matches(s, p, up_wrap(bare, up_print(tb, c))),
              bare ==> (if left { up_safe_l(tb, c, op) } else { up_safe_r(tb, c, op) }),
              left ==> lvl <= (tb.prec)(op) && p + up_wrap(bare, up_print(tb, c)).len() < s.len() && s[p + up_wrap(bare, up_print(tb, c)).len()] == UTok::O(op),
              !left ==> lvl == (tb.prec)(op) + 1 && ({ let e = p + up_wrap(bare, up_print(tb, c)).len(); e >= s.len() || s[e] is R || (s[e] is O && (tb.prec)(s[e]->O_0) <= (tb.prec)(op)) }),
     ensures up_parse_e(tb, s, p, lvl) == up_climb(tb, s, c, p + up_wrap(bare, up_print(tb, c)).len(), lvl)
-    decreases c, 1nat
+    decreases c, 2nat
 {
     lemma_up_len(tb, c);
     let n = up_print(tb, c).len() as int;
@@ -167,10 +260,10 @@ pub proof fn lemma_up_operand<Op>(tb: UpTable<Op>, c: UT<Op>, bare: bool, s: Seq
     }
 }
 pub proof fn lemma_up_operand_not<Op>(tb: UpTable<Op>, c: UT<Op>, bare: bool, s: Seq<UTok<Op>>, p: int)
-    requires up_printer_ok(tb), up_matches(s, p, up_wrap(bare, up_print(tb, c))), bare ==> up_safe_n(tb, c),
+    requires up_printer_ok(tb), up_wf(tb, c), up_matches(s, p, up_wrap(bare, up_print(tb, c))), bare ==> up_safe_n(tb, c),
              ({ let e = p + up_wrap(bare, up_print(tb, c)).len(); e >= s.len() || s[e] is R || (s[e] is O && (tb.prec)(s[e]->O_0) < tb.prec_not) }),
     ensures up_parse_e(tb, s, p, tb.prec_not) == up_climb(tb, s, c, p + up_wrap(bare, up_print(tb, c)).len(), tb.prec_not)
-    decreases c, 1nat
+    decreases c, 2nat
 {
     lemma_up_len(tb, c);
     let n = up_print(tb, c).len() as int;
@@ -188,7 +281,7 @@ pub proof fn lemma_up_operand_not<Op>(tb: UpTable<Op>, c: UT<Op>, bare: bool, s:
 }
 // THE THEOREM: the engine's parser recovers exactly the tree that was printed
 pub proof fn theorem_unparse<Op>(tb: UpTable<Op>, t: UT<Op>)
-    requires up_printer_ok(tb)
+    requires up_printer_ok(tb), up_wf(tb, t)
     ensures up_parse_e(tb, up_print(tb, t), 0, UP_MIN) == Some((t, up_print(tb, t).len() as int))
 {
     lemma_up_len(tb, t);
